@@ -5,6 +5,7 @@ import LoraVerif.Lemmas.Bits
 import LoraVerif.Lemmas.ExceptLemmas
 import LoraVerif.Lemmas.FcntDown
 import LoraVerif.Lemmas.Ghost
+import LoraVerif.Lemmas.RefineOps
 /-!
 # C05 — a downlink is accepted iff it is authentic and fresh (replay protection)
 
@@ -517,8 +518,83 @@ example : next_fcnt_down (some 4294967295) 5 = none := by decide
 example : next_fcnt_down (some 100) 16484 = some 16484 := by decide
 example : next_fcnt_down (some 100) 16485 = none := by decide
 
+/-! ## the async front-end: acceptance iff authentic and fresh, for every script (by refinement)
+
+`Lemmas/RefineOps.lean` (`asyncOps_refines_run`): a session of the async front-end model in which no
+frame is heard between the windows — every session of a Class A device, under ANY script of radio
+answers — returns exactly what `History.run` returns on the history `abstractSession` reads off the
+scripts.  `history_accept_iff` therefore holds of the front-end: at every `send` / `join` of the session
+a data frame heard in RX1 / RX2 is acted upon iff it fits the window and its MIC verifies under the
+unique fresh counter (`AcceptTrace` over the abstracted history, whose outputs are the front-end's
+answers: `ObsRel`), and the stored downlink counter of the final state is the last accepted one. -/
+
+theorem evOk_of_rxs (e : Ev) (hv : ∀ v snr mp, e ≠ .rxc v snr mp) (h : ∀ f ∈ e.rxs, rxAll viewOk f = true) : evOk e = true := by
+  have hrx : ∀ f, rxAll viewOk f = true → rxOk f = true := by
+    intro f hf
+    cases f with
+    | none => rfl
+    | some p => exact hf
+  cases e with
+  | uplink d p c f rx1 rx2 mp1 mp2 =>
+    simp only [evOk, Bool.and_eq_true]
+    exact ⟨hrx _ (h rx1 (by simp [Ev.rxs])), hrx _ (h rx2 (by simp [Ev.rxs]))⟩
+  | joinOtaa f rx1 rx2 mp1 mp2 =>
+    simp only [evOk, Bool.and_eq_true]
+    exact ⟨hrx _ (h rx1 (by simp [Ev.rxs])), hrx _ (h rx2 (by simp [Ev.rxs]))⟩
+  | rxc v snr mp => exact absurd rfl (hv v snr mp)
+  | joinAbp a n k => rfl
+  | setAdr on => rfl
+  | setDr dr => rfl
+
+theorem plainOf_abstractOp_not_rxc {σ} (g : Rng σ) (cfg : DevCfg) (op : AsyncOp) (m : MacState) (s : σ) :
+    ∀ v snr mp, plainOf g m s (abstractOp cfg op) ≠ .rxc v snr mp := by
+  intro v snr mp
+  cases op with
+  | send data port conf script =>
+    show plainOf g m s (abstractSendC cfg script data port conf) ≠ _
+    unfold abstractSendC
+    split <;> (simp only [plainOf]; split <;> simp)
+  | join script =>
+    show plainOf g m s (abstractJoinC cfg script) ≠ _
+    unfold abstractJoinC
+    split <;> (simp only [plainOf]; split <;> simp)
+  | abp a n k => simp [abstractOp, plainOf]
+  | setAdr on => simp [abstractOp, plainOf]
+  | setDr dr => simp [abstractOp, plainOf]
+
+/-- **C05 on the async front-end, for every script** (sessions without frames heard between the
+windows: every session in Class A).  The history `abstractSession` of the session satisfies the
+acceptance trace predicate of `history_accept_iff` from the tracker `gh` of the start state, its
+outputs are the front-end's answers call by call, and the final MAC state is the one the tracker
+describes. -/
+theorem async_accept_iff {σ} (g : Rng σ) (cfg : DevCfg) (d : DevRun) (rs : σ) (gh : Gh) (hr : GhRel d.m gh)
+    (ops : List AsyncOp) (hp : ∀ op ∈ ops, op.plain cfg = true) (hv : ∀ op ∈ ops, op.allView viewOk = true)
+    (obs : List OpObs) (d' : DevRun) (rs' : σ) (h : asyncOps g cfg d rs ops = .ok (obs, d', rs')) :
+    ∃ outs, AcceptTrace gh ((abstractSession g cfg d.m rs ops).zip outs) ∧
+      GhRel d'.m (ghRun gh (abstractSession g cfg d.m rs ops)) ∧
+      AllRel (fun ob out => ObsRel ob { out := out }) obs outs := by
+  obtain ⟨outs, hrun, hobs⟩ := asyncOps_refines_run g cfg d rs ops hp obs d' rs' h
+  have hev : ∀ ev ∈ abstractSession g cfg d.m rs ops, evOk ev = true := by
+    refine plainRun_all g (fun e => evOk e = true) _ ?_ _
+    intro ev hev m s
+    obtain ⟨op, hop, rfl⟩ := List.mem_map.mp hev
+    exact evOk_of_rxs _ (plainOf_abstractOp_not_rxc g cfg op m s) (plainOf_abstractOp_rxs g cfg viewOk op (hv op hop) m s)
+  obtain ⟨ht, hg⟩ := history_accept_iff g d.m rs gh hr _ hev _ outs hrun
+  exact ⟨outs, ht, hg, hobs⟩
+
+/-- the hypotheses are satisfiable: a Class A session (frames in RX1 and RX2, a radio error) -/
+def demoAsyncOps : List AsyncOp :=
+  [ .abp 7 1 2,
+    .send [1] 1 true [.ok, .ok, .ok, .frame 3 (.data { len := 14, confirmed := false, fcnt16 := 5, micFcnt := some 5, fopts := [], fport := some 2, payload := [9] })],
+    .send [2] 1 false [.ok, .ok, .ok, .frame 0 (.data { len := 14, confirmed := false, fcnt16 := 5, micFcnt := some 5, fopts := [], fport := some 2, payload := [9] }), .ok, .ok, .err] ]
+
+example : ∀ op ∈ demoAsyncOps, op.plain { lead := 15, buffer := 40, classC := false, txMs := 57 } = true ∧ op.allView viewOk = true := by
+  decide +kernel
+
+
 end C05
 
+#print axioms C05.async_accept_iff
 #print axioms C05.next_eq_spec
 #print axioms C05.next_spec
 #print axioms C05.next_unique
